@@ -16,6 +16,112 @@ type RangeLoop struct {
 	Key    ssa.Value       // map key (map range) or index (slice range)
 	Elem   ssa.Value       // slice element value(s): loads of &Over[idx] (nil for maps)
 	IsMap  bool
+	// Coll: the loop counts up to Over.Len() where Len is a length accessor of
+	// a collection type (returns len of field CollField); its elements are
+	// read with the matching index accessor, see IsElem.
+	Coll      bool
+	CollField string
+}
+
+// accessorBody returns the body-carrying function of f (the generic origin
+// when the instance has no body).
+func accessorBody(f *ssa.Function) *ssa.Function {
+	if f != nil {
+		f = Origin(f)
+	}
+	if f == nil || len(f.Blocks) != 1 {
+		return nil
+	}
+	return f
+}
+
+func accessorField(f *ssa.Function, v ssa.Value) (string, bool) {
+	switch x := v.(type) {
+	case *ssa.Field:
+		if len(f.Params) > 0 && x.X == ssa.Value(f.Params[0]) {
+			if fld := FieldOf(x); fld != nil {
+				return fld.Name(), true
+			}
+		}
+	case *ssa.UnOp:
+		if fa, ok := x.X.(*ssa.FieldAddr); ok && x.Op == token.MUL && len(f.Params) > 0 {
+			recv := fa.X == ssa.Value(f.Params[0])
+			if al, isAl := fa.X.(*ssa.Alloc); isAl && storesTo(al) == 1 {
+				// a value receiver spilled into a local
+				for _, r := range *al.Referrers() {
+					if st, ok := r.(*ssa.Store); ok && st.Addr == ssa.Value(al) && st.Val == ssa.Value(f.Params[0]) {
+						recv = true
+					}
+				}
+			}
+			if fld := FieldOf(fa); fld != nil && recv {
+				return fld.Name(), true
+			}
+		}
+	}
+	return "", false
+}
+
+// LenAccessor: f is `func (r T) Len() int { return len(r.f) }`; returns f's name of the field.
+func LenAccessor(f *ssa.Function) (string, bool) {
+	f = accessorBody(f)
+	if f == nil || len(f.Params) != 1 {
+		return "", false
+	}
+	ret, ok := f.Blocks[0].Instrs[len(f.Blocks[0].Instrs)-1].(*ssa.Return)
+	if !ok || len(ret.Results) != 1 {
+		return "", false
+	}
+	call, ok := ret.Results[0].(*ssa.Call)
+	if !ok {
+		return "", false
+	}
+	if bi, ok := call.Call.Value.(*ssa.Builtin); !ok || bi.Name() != "len" {
+		return "", false
+	}
+	return accessorField(f, call.Call.Args[0])
+}
+
+// IndexAccessor: f is `func (r T) Index(i int) E { return r.f[i] }`.
+func IndexAccessor(f *ssa.Function) (string, bool) {
+	f = accessorBody(f)
+	if f == nil || len(f.Params) != 2 {
+		return "", false
+	}
+	ret, ok := f.Blocks[0].Instrs[len(f.Blocks[0].Instrs)-1].(*ssa.Return)
+	if !ok || len(ret.Results) != 1 {
+		return "", false
+	}
+	ld, ok := ret.Results[0].(*ssa.UnOp)
+	if !ok || ld.Op != token.MUL {
+		return "", false
+	}
+	ia, ok := ld.X.(*ssa.IndexAddr)
+	if !ok || ia.Index != ssa.Value(f.Params[1]) {
+		return "", false
+	}
+	return accessorField(f, ia.X)
+}
+
+// IsElem reports whether v is the element of the ranged collection for the
+// current iteration of l: a load of &Over[Key], or Over.Index(Key) for a
+// collection loop.
+func (l *RangeLoop) IsElem(v ssa.Value) bool {
+	v = Unwrap(v)
+	if l.Coll {
+		call, ok := v.(*ssa.Call)
+		if !ok || call.Call.IsInvoke() || len(call.Call.Args) != 2 {
+			return false
+		}
+		fld, ok := IndexAccessor(call.Call.StaticCallee())
+		return ok && fld == l.CollField && SameValue(call.Call.Args[0], l.Over) && call.Call.Args[1] == l.Key
+	}
+	ld, ok := v.(*ssa.UnOp)
+	if !ok || ld.Op != token.MUL {
+		return false
+	}
+	ia, ok := ld.X.(*ssa.IndexAddr)
+	return ok && ia.X == l.Over && ia.Index == l.Key
 }
 
 // RangeLoops finds the range loops of fn.
@@ -202,12 +308,23 @@ func countedLoop(b *ssa.BasicBlock, cond *ssa.BinOp) *RangeLoop {
 	if !ok {
 		return nil
 	}
-	bi, ok := ln.Call.Value.(*ssa.Builtin)
-	if !ok || bi.Name() != "len" {
-		return nil
-	}
-	if _, isSlice := ln.Call.Args[0].Type().Underlying().(*types.Slice); !isSlice {
-		return nil
+	collField, coll := "", false
+	if bi, ok := ln.Call.Value.(*ssa.Builtin); ok {
+		if bi.Name() != "len" {
+			return nil
+		}
+		if _, isSlice := ln.Call.Args[0].Type().Underlying().(*types.Slice); !isSlice {
+			return nil
+		}
+	} else {
+		// i < x.Len() with Len a length accessor
+		if ln.Call.IsInvoke() || len(ln.Call.Args) != 1 {
+			return nil
+		}
+		collField, coll = LenAccessor(ln.Call.StaticCallee())
+		if !coll {
+			return nil
+		}
 	}
 	// the length is taken in the header or before the loop
 	if ln.Block() != b && !ln.Block().Dominates(b) {
@@ -234,5 +351,5 @@ func countedLoop(b *ssa.BasicBlock, cond *ssa.BinOp) *RangeLoop {
 	if entries == 0 || steps == 0 {
 		return nil
 	}
-	return &RangeLoop{Over: ln.Call.Args[0], Header: b, Body: b.Succs[0], Done: b.Succs[1], Key: ph}
+	return &RangeLoop{Over: ln.Call.Args[0], Header: b, Body: b.Succs[0], Done: b.Succs[1], Key: ph, Coll: coll, CollField: collField}
 }
